@@ -72,7 +72,7 @@ def agg_property(run):
             # model of the code as it is (Dev = CurrentDev) so that known findings can be told from new ones
             res = tlc_agg(run, "%s(len<=%d,depth<=%d,Dev=Current)" % (module, maxlen, maxdepth), module,
                           cfg([], maxlen, maxdepth, dev="CurrentDev", flags=flags))
-        replay(run, pid, res, run.seed, judge=spec["judge"], limit=20000 if q else 120000)
+        replay(run, pid, res, run.seed, judge=spec["judge"], limit=(9000 if pid == "C08" else 20000) if q else 120000)
     # long programs: random behaviours of the same specification (invariants are checked on every state)
     for module, maxlen, maxdepth in spec["sim"]:
         res = tlc_agg(run, "%s(simulate,len<=%d)" % (module, maxlen), module,
@@ -475,7 +475,7 @@ def c06(run):
     for name, c in C06_CONFIGS.items():
         res = lib.run_tlc("MC_C05", gen_cfg(c, faults="Faults", maxlen=c[8] if q else c[9]), coverage=False)
         run.add_tlc("MC_C05(%s + faults)" % name, res)
-        lexh.replay_c06(run, res.lines.get("BEH", []), run.seed, limit=1100 if q else 25000)
+        lexh.replay_c06(run, res.lines.get("BEH", []), run.seed, limit=750 if q else 25000)
     run.assumptions += ["a fault is demanded to fail only if CMake itself reports a parse error for the faulted file (cmake -P on the "
                         "text wrapped in a never-called function) or it is a backslash before an alphanumeric other than t n r "
                         "(invalid per cmake-language(7)); faults inside comments and bracket arguments are not judged",
@@ -614,6 +614,20 @@ CHECKS["C20"] = c20
 
 
 def replay_file(run, pid, path):
+    """Show a recorded violation again and, where the case carries CMake source, re-run it through the real pipeline."""
     body = json.load(open(path))
-    print(json.dumps(body, indent=1)[:4000])
+    print("property:", body.get("property"), "| why:", body.get("why"))
+    case = body.get("case", {})
+    print("case:", json.dumps({k: v for k, v in case.items() if k != "source"}, indent=1, default=str)[:3000])
+    print("expected:", json.dumps(body.get("expected"), indent=1, default=str)[:2000])
+    print("observed (recorded):", json.dumps(body.get("observed"), indent=1, default=str)[:2000])
+    src = case.get("source")
+    if isinstance(src, str):
+        import agg
+        inc = case.get("inc") or {}
+        status, text, _, err = agg.run_real(src, agg.make_settings(inc, None))
+        print("---- source ----")
+        print(src)
+        print("---- real pipeline now: %s ----" % status)
+        print(text)
     return 0
